@@ -9,6 +9,9 @@ PROP = dict(
         dict(driver="mgr", binary="zrate", corpus_from="C13", quick=60, thorough=800, shard=30, only_monitors=[0],
              monitors=["table_bounded", "lifetime_window_bound", "lifetime_penalty_honoured",
                        "host_window_bound_across_evictions", "host_penalty_across_evictions"]),
+        # concurrent bursts of new hosts against a table just below its bound (driver shared with C13): size read at quiescence
+        dict(driver="mgrburst", binary="zrate", corpus_from="C13", quick=30, thorough=600, shard=40, only_monitors=[0],
+             monitors=["table_bounded"]),
     ],
     partial="Goroutine and file-descriptor counts are facts of the Go runtime and the OS that no executable model can exhibit: they are "
             "measured (N against 4N seeds, separate processes, same configuration), not proved; the comparison tolerates a few idle "
